@@ -726,19 +726,19 @@ class CaseTimeout(BaseException):
     pass
 
 
-def guarded_build(ctx, kind, buildf, spec, T, limit=4.0):
-    """Builds one case under a wall-clock limit (a library loop that no longer terminates must not hang or
-    exhaust the memory of the check).  Exceptions whose innermost frame is inside the library are failures
+def guarded_build(ctx, kind, buildf, spec, T, limit=30.0):
+    """Builds one case under a CPU-time limit of this process (ITIMER_PROF: independent of how busy the machine is;
+    a library loop that no longer terminates burns CPU and must not hang or exhaust the memory of the check).  Exceptions whose innermost frame is inside the library are failures
     of the library on a valid generated input (concrete); anything else is a defect of this engine."""
     import signal, traceback, sys
     def on_alarm(signum, frame):
         raise CaseTimeout()
-    old = signal.signal(signal.SIGALRM, on_alarm)
-    signal.setitimer(signal.ITIMER_REAL, limit)
+    old = signal.signal(signal.SIGPROF, on_alarm)
+    signal.setitimer(signal.ITIMER_PROF, limit)
     try:
         return buildf(spec, T)
     except CaseTimeout:
-        ctx.report(f"a safety computation of the library did not terminate within {limit:.0f} s on a graph with <= 10 nodes ({kind} case)",
+        ctx.report(f"a safety computation of the library did not terminate within {limit:.0f} s of CPU time on a graph with <= 10 nodes ({kind} case)",
                    {"spec": spec}, concrete=True)
     except MemoryError:
         ctx.report(f"a safety computation of the library exhausted memory ({kind} case)", {"spec": spec}, concrete=True)
@@ -749,8 +749,8 @@ def guarded_build(ctx, kind, buildf, spec, T, limit=4.0):
                     f"engine raised while building a {kind} case: {ex!r}"),
                    {"spec": spec, "traceback": traceback.format_exc()}, concrete=in_lib)
     finally:
-        signal.setitimer(signal.ITIMER_REAL, 0)
-        signal.signal(signal.SIGALRM, old)
+        signal.setitimer(signal.ITIMER_PROF, 0)
+        signal.signal(signal.SIGPROF, old)
     return None
 
 
